@@ -660,6 +660,13 @@ func (node *CallGraphStage) resolve(siblings map[string]*ResolvedBinding,
 			if err != nil {
 				errs = append(errs, err)
 			}
+			if s, ok := exp.(*SplitExp); ok {
+				// Disabled in only some forks of an enclosing map call.
+				if t, err := lookup.AddDim(lookup.Get(tid),
+					s.Source.CallMode()); err == nil {
+					s.Type = t
+				}
+			}
 			node.Outputs = &ResolvedBinding{
 				Exp:  exp,
 				Type: lookup.Get(tid),
